@@ -670,6 +670,9 @@ class Interp:
             a = self.unpack(v.args[1], n, starred)
             b = self.unpack(v.args[2], n, starred)
             return [tm.ite(v.args[0], x, y) for x, y in zip(a, b)]
+        rec = self._record_fields(v) if not starred else None
+        if rec is not None and len(rec) == n:
+            return list(rec.values())       # a NamedTuple value unpacked
         return [tm.sub(v, const(i)) for i in range(n)]
 
     # ------------------------------------------------------------------- if
@@ -699,6 +702,9 @@ class Interp:
                             tm.mk_and(tm.mk_not(cc), b_))
         if c.op == "named":
             return self.as_cond(c.args[1])
+        if c.op == "call" and tm.callee_name(c) == "builtins.bool" and \
+                len(c.args[1]) == 1 and not c.args[2]:
+            return self.as_cond(c.args[1][0])     # bool(x) as a condition
         if c.op == "call" and tm.callee_name(c) in ("builtins.any",
                                                     "builtins.all") and \
                 len(c.args[1]) == 1 and \
@@ -1709,6 +1715,15 @@ class Interp:
         if b.op == "ite":
             return tm.ite(b.args[0], self.subscript(b.args[1], idx),
                           self.subscript(b.args[2], idx))
+        if b.op == "call" and b.args[0].op == "cls" and tm.is_const(idx) \
+                and type(tm.const_val(idx)) is int:
+            # field k of a NamedTuple value (also through tuple unpacking)
+            rec = self._record_fields(b)
+            if rec is not None:
+                vals = list(rec.values())
+                i = tm.const_val(idx)
+                if -len(vals) <= i < len(vals):
+                    return vals[i]
         if b.op in ("tuple", "list") and tm.is_const(idx) and \
                 isinstance(tm.const_val(idx), int) and \
                 not isinstance(tm.const_val(idx), bool):
@@ -2710,6 +2725,16 @@ class Interp:
             # a member of an enumeration is an instance of it
             c = self.prog.classes.get(self.unname(obj).args[0])
         ou = self.unname(obj)
+        if c is None and tm.callee_name(ou) == "builtins.input":
+            # input() returns a str
+            tys = types.args if types.op == "tuple" else (types,)
+            names = [self.unname(t).args[0] if self.unname(t).op in (
+                "global", "cls") else None for t in tys]
+            if "builtins.str" in names:
+                return True
+            if all(n_ in ("builtins.int", "builtins.float", "builtins.bytes",
+                          "builtins.bool", "builtins.list") for n_ in names):
+                return False
         if c is None and tm.is_const(ou):
             # a constant: decided with the builtin / abstract types by name
             import collections.abc as _abc
